@@ -6,7 +6,7 @@
   Notation: `MRel m x y X Y` is "det m = 1 and (X; Y) = m·(x; y)"; `mmul` the 2×2 product; `HM.Fits` "every
   entry is below B^(M->n)"; all entries are naturals, so non-negativity is built in.
 -/
-import MpirProofs.Lemmas.HgcdMatrix2
+import MpirProofs.Lemmas.HgcdRec2
 namespace Mpir.C07h
 open Mpir Mpir.Gcd Mpir.Hgcd
 
@@ -129,5 +129,91 @@ theorem hgcd_matrix_adjust_correct (M : HM) (n a b p S T : Nat) (hf : M.Fits) (h
 -- non-vacuity: M = (3 2; 4 3), p = 1, reduced high parts (B+7; B+5), low limbs (11; B-1)
 example : matAdjust ⟨3, 1, 3, 2, 4, 3⟩ 3 (B * (B + 7) + 11) (B * (B + 5) + (B - 1)) 1
     = (3, B * (B + 7) + 3 * 11 - 2 * (B - 1), B * (B + 5) + 3 * (B - 1) - 4 * 11) := by decide +kernel
+
+/-! ## 2. mpn_hgcd_step, mpn_hgcd, mpn_hgcd_reduce -/
+
+theorem mrel_gcd {m : M1} {x y X Y : Nat} (h : MRel m x y X Y) : Nat.gcd X Y = Nat.gcd x y :=
+  stepOk_gcd (m := m) (s := ⟨X, Y, 0, 1⟩) (s' := ⟨x, y, 0 * m.u00 + 1 * m.u10, 0 * m.u01 + 1 * m.u11⟩) ⟨h.1, h.2.1, h.2.2, rfl, rfl⟩
+
+/-- mpn_hgcd_step (n, a, b, s, M) — an mpn_hgcd2 step on the (shifted) top limbs, else mpn_gcd_subdiv_step
+    with hgcd_hook (subtraction, division, "quotient one too large" correction, every `return 0`) — for
+    n > s ≥ 1, a, b < B^n, entries of M within M->n limbs.  Whatever is returned, M' = M·E and
+    (a; b) = E·(a'; b') for a non-negative E with det E = 1: gcd(a', b') = gcd(a, b), det M is preserved and
+    the reconstruction through M stays exact (also on the `return 0` path that has already recorded a
+    subtraction).  On success E ≠ I, BOTH a', b' keep more than s limbs ("never below the given size s"),
+    the returned size is exact and ≤ n; on `return 0` one of a', b', |a' - b'| fits in s limbs. -/
+theorem hgcd_step_correct (n a b s : Nat) (M : HM) (hf : M.Fits) (hMn : 1 ≤ M.n) (hs : s < n) (hs0 : 1 ≤ s)
+    (ha : a < B ^ n) (hb : b < B ^ n) :
+    ∃ E : M1, det1 E ∧ (hgcdStep n a b s M).M.toM1 = mmul M.toM1 E ∧
+      MRel E (hgcdStep n a b s M).a (hgcdStep n a b s M).b a b ∧
+      Nat.gcd (hgcdStep n a b s M).a (hgcdStep n a b s M).b = Nat.gcd a b ∧
+      (hgcdStep n a b s M).M.Fits ∧ (hgcdStep n a b s M).M.alloc = M.alloc ∧
+      ((hgcdStep n a b s M).ret ≠ 0 → NonId E ∧ B ^ s ≤ (hgcdStep n a b s M).a ∧ B ^ s ≤ (hgcdStep n a b s M).b ∧
+        (hgcdStep n a b s M).a < B ^ (hgcdStep n a b s M).ret ∧ (hgcdStep n a b s M).b < B ^ (hgcdStep n a b s M).ret ∧
+        (B ^ ((hgcdStep n a b s M).ret - 1) ≤ (hgcdStep n a b s M).a ∨ B ^ ((hgcdStep n a b s M).ret - 1) ≤ (hgcdStep n a b s M).b) ∧
+        (hgcdStep n a b s M).ret ≤ n) ∧
+      ((hgcdStep n a b s M).ret = 0 → (hgcdStep n a b s M).a < B ^ s ∨ (hgcdStep n a b s M).b < B ^ s ∨
+        absDiff (hgcdStep n a b s M).a (hgcdStep n a b s M).b < B ^ s) := by
+  obtain ⟨E, e1, e2, e3, e4, e5, e6⟩ := hgcdStep_spec n a b s M ⟨hf, hMn⟩ (by omega) hs hs0 ha hb
+  exact ⟨E, e2.1, e1, e2, (mrel_gcd e2).symm, e3.1, e4, e5, fun h => (e6 h).2.2.1⟩
+
+-- non-vacuity: a subtract-and-divide step (top limbs too small for hgcd2), and an hgcd2 step
+example : hgcdStep 3 (B ^ 2 + 5) (3 * B ^ 2 + B + 1) 2 (matInit 3) =
+    ⟨3, B ^ 2 + 5, B ^ 2 + B - 9, ⟨3, 1, 1, 0, 2, 1⟩⟩ := by decide +kernel
+example : (hgcdStep 4 (B ^ 4 - 1) (B ^ 4 - B ^ 3 + 77) 2 (matInit 4)).ret = 4 := by decide +kernel
+
+/-- PARTIAL (full statement: the same for all n; missing: operands of HGCD_REDUCE_THRESHOLD limbs or more, where
+    mpn_hgcd_reduce goes through mpn_hgcd_appr and hgcd_matrix_apply — the truncation analysis of mpn_hgcd_appr
+    is not proved, `wrap_exact` covers the mod B^k − 1 products; and the bound M->n < M->alloc, which needs the
+    normalisation argument of mpn_hgcd_matrix_mul's comment).
+    **The contract of mpn_hgcd** (comment at the top of hgcd.c, hgcd_step.c and the size analysis), for the
+    model `hgcd` — the recursion with p = n/2 through mpn_hgcd_reduce, the loop of steps while n > 3n/4 + 1, the
+    second recursive call with mpn_hgcd_matrix_adjust and mpn_hgcd_matrix_mul, the final loop — for ALL
+    thresholds with HGCD_THRESHOLD ≥ 8 (the tuner's minimum is 30) and every MATRIX22_STRASSEN_THRESHOLD,
+    n < HGCD_REDUCE_THRESHOLD, a, b < B^n with one of them using limb n-1, M initialised by
+    mpn_hgcd_matrix_init.  With s = n/2 + 1:
+    * always: det M = 1, (a; b) = M·(a'; b') exactly over the naturals (so gcd(a', b') = gcd(a, b) and any
+      cofactor relation transported through M is exact — no matter which branch was taken), the entries fit
+      M->n limbs;
+    * if nn > 0 is returned: M ≠ I, a' and b' both have MORE than s limbs (≥ B^s), |a' − b'| fits in s limbs
+      (< B^s), both are below B^nn with one of them using limb nn-1, nn ≤ n;
+    * if 0 is returned and n ≥ 5: a, b and M are unchanged. -/
+theorem mpn_hgcd_correct_partial (thr : Thr) (ns : Nat → Nat) (h8 : 8 ≤ thr.hgcd) (n a b : Nat) (hthr : n < thr.reduce)
+    (ha : a < B ^ n) (hb : b < B ^ n) (ht : B ^ (n - 1) ≤ a ∨ B ^ (n - 1) ≤ b) :
+    let r := hgcd thr ns n a b (matInit n)
+    det1 r.M.toM1 ∧ MRel r.M.toM1 r.a r.b a b ∧ Nat.gcd r.a r.b = Nat.gcd a b ∧ r.M.Fits ∧
+    (r.ret ≠ 0 → NonId r.M.toM1 ∧ B ^ (n / 2 + 1) ≤ r.a ∧ B ^ (n / 2 + 1) ≤ r.b ∧ absDiff r.a r.b < B ^ (n / 2 + 1) ∧
+        r.a < B ^ r.ret ∧ r.b < B ^ r.ret ∧ (B ^ (r.ret - 1) ≤ r.a ∨ B ^ (r.ret - 1) ≤ r.b) ∧ r.ret ≤ n) ∧
+    (r.ret = 0 → 5 ≤ n → r.a = a ∧ r.b = b ∧ r.M = matInit n) := by
+  intro r
+  obtain ⟨⟨l1, l2, _, l4, l5⟩, l6⟩ := hgcd_spec thr ns h8 n a b (matInit n) hthr (hpre_matInit n a b ha hb ht)
+  refine ⟨l1.1, l1, (mrel_gcd l1).symm, l2.1, fun h => ?_, fun h h5 => (l6 h).2.2 h5⟩
+  obtain ⟨k1, k2, k3, k4, k5, k6, k7⟩ := l5 h
+  exact ⟨k1, k2, k3, k7, k4, k5, k6, l4⟩
+
+-- non-vacuity: 6-limb Fibonacci-like operands below and above a (small) HGCD_THRESHOLD: same reduction, 4 limbs left
+example : (hgcd ⟨8, 50, 1000, 2⟩ id 9 (3 ^ 360) (5 ^ 240) (matInit 9)).ret = 6 := by decide +kernel
+example : (hgcd ⟨100, 50, 1000, 2⟩ id 9 (3 ^ 360) (5 ^ 240) (matInit 9)).ret = 6 := by decide +kernel
+
+/-- PARTIAL in the same sense (n < HGCD_REDUCE_THRESHOLD).  mpn_hgcd_reduce (M, a, b, n, p): mpn_hgcd on the
+    limbs from p on, then mpn_hgcd_matrix_adjust.  On success (a; b) = M·(a'; b') exactly, M ≠ I, a', b' ≥
+    B^(p + (n-p)/2) — for p = n/2 that is more than n/2 + 1 limbs —, below B^nn, nn exact and ≤ n; when 0 is
+    returned (and n - p ≥ 5) nothing was changed. -/
+theorem mpn_hgcd_reduce_correct_partial (thr : Thr) (ns : Nat → Nat) (h8 : 8 ≤ thr.hgcd) (a b n p : Nat) (hpn : p < n)
+    (hthr : n < thr.reduce) (ha : a < B ^ n) (hb : b < B ^ n) (ht : B ^ (n - 1) ≤ a ∨ B ^ (n - 1) ≤ b) :
+    let r := hgcdReduce thr ns (matInit (n - p)) a b n p
+    r.M.Fits ∧
+    (r.ret ≠ 0 → MRel r.M.toM1 r.a r.b a b ∧ Nat.gcd r.a r.b = Nat.gcd a b ∧ NonId r.M.toM1 ∧
+        B ^ (p + (n - p) / 2) ≤ r.a ∧ B ^ (p + (n - p) / 2) ≤ r.b ∧ r.a < B ^ r.ret ∧ r.b < B ^ r.ret ∧
+        (B ^ (r.ret - 1) ≤ r.a ∨ B ^ (r.ret - 1) ≤ r.b) ∧ r.ret ≤ n) ∧
+    (r.ret = 0 → 5 ≤ n - p → r.a = a ∧ r.b = b ∧ r.M = matInit (n - p)) := by
+  intro r
+  obtain ⟨e1, e2, _, e4, _⟩ := matInit_spec (n - p)
+  obtain ⟨q1, _, q3, q4⟩ := hgcdReduce_spec thr ns h8 (matInit (n - p)) a b n p hpn hthr ⟨e1, ⟨e4, by rw [e2]⟩, ha, hb, ht⟩
+  refine ⟨q1.1, fun h => ?_, q4⟩
+  obtain ⟨k1, k2, k3, k4, k5, k6, k7, k8⟩ := q3 h
+  exact ⟨k1, (mrel_gcd k1).symm, k2, k3, k4, k5, k6, k7, k8⟩
+
+example : (hgcdReduce ⟨100, 50, 1000, 2⟩ id (matInit 6) (3 ^ 360) (5 ^ 240) 9 3).ret = 8 := by decide +kernel
 
 end Mpir.C07h
